@@ -19,6 +19,7 @@ import ClairModel.Proofs.Dpkg
 import ClairModel.Proofs.Apk
 import ClairModel.Proofs.OsRelease
 import ClairModel.Proofs.PyMeta
+import ClairModel.Proofs.RpmPkg
 
 namespace ClairModel.Props.C02
 open ClairModel ClairModel.Bytes ClairModel.Rfc822 ClairModel.Dpkg
@@ -382,5 +383,90 @@ example :
   decide
 
 end python
+
+/-! ## rpm: from header information to packages -/
+
+section rpm
+open ClairModel.RpmPkg
+
+/-- Exactness (partial): for the information of any list of headers — any
+    names, epochs, versions, releases, architectures; source rpm
+    `name-version-release.src.rpm` (name with any number of dashes) or
+    `(none)`; modularity label `name:stream:version:context` or none — the scan
+    reports exactly one package per header that is not a `gpg-pubkey`, in
+    order, with version `[epoch:]version-release`, module `name:stream`, and
+    the source name/version split off the source rpm name — provided binaries
+    of one source rpm belong to one module stream. -/
+theorem rpm_packages_exact_partial (es : List RpmPkg.Entry) (hw : ∀ e ∈ es, e.WF) (hag : ModulesAgree es) :
+    RpmPkg.scan (es.map RpmPkg.Entry.info) =
+      some ((es.filter (fun e => e.name ≠ sGpgPubkey)).map RpmPkg.Entry.pkg) := by
+  unfold RpmPkg.scan
+  apply packages_exact es hw hag
+  · intro e _ s hl
+    simp only [RpmPkg.lookup] at hl
+    split at hl
+    · rename_i h
+      simp only [Option.some.injEq] at hl
+      subst hl
+      unfold RpmPkg.Entry.pkg RpmPkg.Entry.sourceNEVR at *
+      cases hsrc : e.source with
+      | none => rfl
+      | some x =>
+        obtain ⟨n, v, r⟩ := x
+        rw [hsrc] at h
+        exact absurd h.symm (sourceNEVR_ne_none n v r)
+    · cases hl
+  · simp [RpmPkg.lookup]
+
+/-- `gpg-pubkey` pseudo packages are never reported, whatever else the header says. -/
+theorem rpm_pubkey_not_reported (is : List RpmPkg.Info) (ps : List RpmPkg.Pkg)
+    (srcs : List (Bytes × Option RpmPkg.Src)) (h : RpmPkg.packages srcs is = some ps) :
+    ∀ p ∈ ps, p.name ≠ sGpgPubkey := by
+  induction is generalizing srcs ps with
+  | nil => simp only [RpmPkg.packages, Option.some.injEq] at h; subst h; intro p hp; simp at hp
+  | cons i is ih =>
+    simp only [RpmPkg.packages] at h
+    split at h
+    · exact ih ps srcs h
+    · rename_i hne
+      split at h
+      · cases hr : RpmPkg.packages srcs is with
+        | none => rw [hr] at h; cases h
+        | some r =>
+          rw [hr] at h
+          simp only [Option.map_some, Option.some.injEq] at h
+          subst h
+          intro p hp
+          rcases List.mem_cons.1 hp with rfl | hp
+          · exact hne
+          · exact ih r srcs hr p hp
+      · split at h
+        · cases h
+        · rename_i n v _
+          cases hr : RpmPkg.packages (srcs ++ [(i.sourceNEVR, some ⟨n, v, moduleStream i.module⟩)]) is with
+          | none => rw [hr] at h; cases h
+          | some r =>
+            rw [hr] at h
+            simp only [Option.map_some, Option.some.injEq] at h
+            subst h
+            intro p hp
+            rcases List.mem_cons.1 hp with rfl | hp
+            · exact hne
+            · exact ih r _ hr p hp
+
+/-- Sanity: the epoch is printed in front of version-release when it is not zero. -/
+example : RpmPkg.evr ⟨asc "bash", 1, asc "5.1.8", asc "6.el9", [], [], []⟩ = asc "1:5.1.8-6.el9" := by
+  simp [RpmPkg.evr, showInt, showNat, asc]
+
+/-- Sanity: bash, a modular npm, a public key. -/
+example : RpmPkg.scan [
+    ⟨asc "bash", 0, asc "5.1.8", asc "6.el9", asc "bash-5.1.8-6.el9.src.rpm", [], asc "x86_64"⟩,
+    ⟨asc "gpg-pubkey", 0, asc "fd431d51", asc "4ae0493b", [], [], []⟩,
+    ⟨asc "npm", 0, asc "8.19", asc "1.el8", asc "nodejs-16.18-1.el8.src.rpm", asc "nodejs:16:8070:abc", asc "noarch"⟩] =
+  some [⟨asc "bash", asc "5.1.8-6.el9", asc "x86_64", [], some ⟨asc "bash", asc "5.1.8-6.el9", []⟩⟩,
+        ⟨asc "npm", asc "8.19-1.el8", asc "noarch", asc "nodejs:16", some ⟨asc "nodejs", asc "16.18-1.el8", asc "nodejs:16"⟩⟩] := by
+  decide
+
+end rpm
 
 end ClairModel.Props.C02
